@@ -387,9 +387,9 @@ def diff_dump(a, b, path=""):
     if isinstance(a, dict):
         for k in sorted(set(a) | set(b)):
             if k not in a:
-                return "%s.%s: missing in impl, model has %r" % (path, k, b[k])
+                return "%s.%s: absent in the first, the second has %r" % (path, k, b[k])
             if k not in b:
-                return "%s.%s: impl has %r, missing in model" % (path, k, a[k])
+                return "%s.%s: the first has %r, absent in the second" % (path, k, a[k])
             d = diff_dump(a[k], b[k], path + "." + k)
             if d:
                 return d
